@@ -130,9 +130,12 @@ def gtf2db(gtf, db, complete_db=False, check_gtf=True):
         check_input_gtf(gtf, db, complete_db)
 
     logger.info("Converting gene annotation file to .db format (takes a while)...")
-    gffutils.create_db(gtf, db, force=True, keep_order=True, merge_strategy='error',
+    # the database may be in use by another run (it is shared via the per-user config): never expose a partially written file
+    tmp_db = db + "." + str(os.getpid()) + ".tmp"
+    gffutils.create_db(gtf, tmp_db, force=True, keep_order=True, merge_strategy='error',
                        sort_attribute_values=True, disable_infer_transcripts=complete_db,
                        disable_infer_genes=complete_db)
+    os.replace(tmp_db, db)
     logger.info("Gene database written to " + db)
     logger.info("Provide this database next time to avoid excessive conversion")
 
